@@ -109,7 +109,7 @@ func cvSt(s *raft.VerifSt) *ev.St {
 		return nil
 	}
 	return &ev.St{Term: s.Term, Vote: s.Vote, State: s.State, Leader: s.Leader, Commit: s.Commit,
-		Last: s.Last, LastTerm: s.LastTerm, Prev: s.Prev, Snap: s.Snap, SnapTerm: s.SnapTerm,
+		Last: s.Last, LastTerm: s.LastTerm, Prev: s.Prev, LogLast: s.LogLast, Snap: s.Snap, SnapTerm: s.SnapTerm,
 		CfgL: s.CfgL, CfgC: s.CfgC, LdrStart: s.LdrStart, Xfer: s.Xfer, SnapBusy: s.SnapBusy}
 }
 
